@@ -64,6 +64,12 @@ func genC17(g *Gen, n int) {
 		g.Emit("zip.pathdir "+hx(s), true, "clean-fixed")
 		g.Emit("zip.pathbase "+hx(s), true, "clean-fixed")
 	}
+	// every ASCII letter as the differing letter of a case-variant pair; the neighbours of the letter ranges
+	for _, pr := range zipuFoldSweep() {
+		g.Emit("zip.checkfiles "+zipuFilesTok(c17PairFiles(pr)), true, "fold-sweep")
+		g.Emit("zip.strtofold "+hx(pr[0]), true, "fold-sweep")
+		g.Emit("zip.strtofold "+hx(pr[1]), true, "fold-sweep")
+	}
 	for i := 0; g.st.Ops < n; i++ {
 		switch k := g.Intn(100); {
 		case k < 50:
@@ -390,10 +396,14 @@ func c17ErrSet(l []modzip.FileError, strip string) string {
 	return strings.Join(s, "\x00")
 }
 
-func oracleC17(g *Gen, n int) {
-	// (1)+(2): partition and classification on duplicate-free lists
-	for i := 0; i < n*2/3; i++ {
-		fs := c17DedupFiles(zipuGenFiles(g.Rand, zipuGenOpts{}))
+// c17PairFiles: two regular one-byte files with the given paths.
+func c17PairFiles(pr [2]string) []*zipuFile {
+	return []*zipuFile{{path: pr[0], mode: 'r', size: 1, content: []byte("x")}, {path: pr[1], mode: 'r', size: 1, content: []byte("y")}}
+}
+
+// c17OracleList: partition and classification on one duplicate-free list.
+func c17OracleList(g *Gen, fs []*zipuFile) {
+	for once := true; once; once = false {
 		line := "zip.checkfiles " + zipuFilesTok(fs)
 		cf, err := modzip.CheckFiles(zipuAsFiles(fs))
 		obs, total := c17Observed(cf, "")
@@ -426,6 +436,16 @@ func oracleC17(g *Gen, n int) {
 		if (err != nil) != wantErr {
 			g.Fail("C17 classify: CheckFiles error does not match the report", "", line)
 		}
+	}
+}
+
+func oracleC17(g *Gen, n int) {
+	// (1)+(2): partition and classification on duplicate-free lists
+	for _, pr := range zipuFoldSweep() {
+		c17OracleList(g, c17PairFiles(pr))
+	}
+	for i := 0; i < n*2/3; i++ {
+		c17OracleList(g, c17DedupFiles(zipuGenFiles(g.Rand, zipuGenOpts{})))
 	}
 	// (3): directory vs list, on real trees of regular files and directories without VCS directories
 	for i := 0; i < n/3; i++ {
